@@ -1,4 +1,5 @@
 import BV.Model.Stream
+import BV.Model.StreamRun
 import BV.Drive.Util
 /-
 Line protocol of the `stream` engine (the leading token `stream` is stripped by `Drive.lean`):
@@ -18,6 +19,10 @@ Line protocol of the `stream` engine (the leading token `stream` is stripped by 
     T:<size>                    take_output(size)                   → `<n>:<hex | ->:<digest>`
   digest = st,ip,lf,lp,lb(-1 in skeleton mode; 0 when lbb = 0: the code leaves a stale byte there),lbb,ao,rm,le,init,to,fm,q,w,b,hint,cat,app,magic,lw,
            mode,dlcm,usedict,rpos,rcur,2*fin+more
+  After the last call's answer, one more token summarises the WHOLE history as computed by the
+  run-level object `BV.Stream.run` (one oracle for the whole line = all recorded answers in order):
+    `R:<delivered bytes>:<FNV-1a of the delivered bytes | ->:<requests>:<closed flags 0/1… | ->:<data bytes consumed>:<metadata bytes consumed>`
+  (omitted when a call of the line panicked, ran out of fuel or was malformed).
   A model panic prints `panic` for that call and ends the line, fuel exhaustion `fuel`, an
   oracle answer that contradicts the skeleton appends `!oracle` to the call's answer; a
   malformed token prints `bad-op`.
@@ -100,11 +105,51 @@ def runCalls (full : Bool) : St → List String → List String → List String
       | _, _, _, _ => "bad-op" :: acc
     | _ => "bad-op" :: acc
 
+/-- one token as a `Call` of the run-level object, with its recorded answers -/
+def parseCall (full : Bool) (tok : String) : Option (Call × List Ans) :=
+  match tok.splitOn ":" with
+  | ["P", id, v] => if id.toNat?.isNone ∨ v.toNat?.isNone then none else some (.setParam (natArg id) (natArg v), [])
+  | ["T", n] => if n.toNat?.isNone then none else some (.take (natArg n), [])
+  | "C" :: op :: inp :: cap :: more =>
+    let answers : Option (List Ans) := match more with
+      | [] => some []
+      | [a] => parseAnswers full a
+      | _ => none
+    match op.toNat?, parseInput inp, cap.toNat?, answers with
+    | some op, some input, some cap, some answers => if op > 3 then none else some (.stream op input cap, answers)
+    | _, _, _, _ => none
+  | _ => none
+
+def parseCalls (full : Bool) (toks : List String) : Option (List Call × List Ans) :=
+  toks.foldr (fun t acc => match acc, parseCall full t with
+    | some (cs, as), some (c, a) => some (c :: cs, a ++ as)
+    | _, _ => none) (some ([], []))
+
+def fnv1a (bs : List Nat) : Nat := bs.foldl (fun h b => ((h ^^^ (b % 256)) * 16777619) % 4294967296) 2166136261
+
+/-- the run-level summary token of a line -/
+def runSummary (full : Bool) (toks : List String) : Option String :=
+  match parseCalls full toks with
+  | none => none
+  | some (calls, answers) =>
+    let o : Oracle := fun k _ => answers.getD k {}
+    let fuel := 8 * histLen calls + 8 * (calls.foldl (fun m c => match c with | .stream _ _ cap => max m cap | _ => m) 0)
+                + (answers.foldl (fun m a => m + a.bits.length) 0) + 8192
+    match run o fuel calls St.new {} with
+    | .ok (_, t) =>
+      let h := if full then toString (fnv1a t.delivered) else "-"
+      let cl := if t.closed.isEmpty then "-" else String.mk (t.closed.map (fun b => if b then '1' else '0'))
+      some s!"R:{t.delivered.length}:{h}:{t.reqs.length}:{cl}:{t.data.length}:{t.mdata.length}"
+    | _ => none
+
 def handle (args : List String) : String :=
   match args with
   | mode :: calls =>
     if mode ≠ "f" ∧ mode ≠ "k" then "bad-op" else
-    " ".intercalate (runCalls (mode == "f") St.new calls []).reverse
+    let outs := (runCalls (mode == "f") St.new calls []).reverse
+    let clean := outs.length == calls.length && outs.all (fun a => a != "panic" && a != "fuel" && a != "bad-op")
+    let outs := if clean then (match runSummary (mode == "f") calls with | some r => outs ++ [r] | none => outs) else outs
+    " ".intercalate outs
   | _ => "bad-op"
 
 end BV.Drive.Stream
